@@ -26,6 +26,8 @@ Interpretation: 'the flux-gradient function' integrated by psi is the momentum
 function (the standard Businger-Dyer pairing)."""
 from fractions import Fraction as F
 
+import os
+
 import numpy as np
 import z3
 
@@ -283,6 +285,14 @@ def decide(run, c, name, bad, scn, account, found):
     s.add(z3.Or(bad))
     r = str(s.check())
     how = "all law instances"
+    if r not in ("sat", "unsat") and not account:
+        # canary runs: a short portfolio; "no longer provable" is what the real check would report as inconclusive
+        r, s2 = ex.check_lazy(c, bad, per=30, budget_s=45)
+        if r == "sat":
+            s = s2
+        elif r != "unsat":
+            found.append(("undecided:" + name, scn, {}))
+            return
     if r not in ("sat", "unsat"):
         for per in (30, 8):
             r, s2 = ex.check_lazy(c, bad, per=per, budget_s=120)
@@ -343,18 +353,26 @@ def decide(run, c, name, bad, scn, account, found):
         found.append((name, scn, vals))
 
 
-def profiles_part(run, pbl, cases, n, account=True, first_only=False):
+def profiles_part(run, pbl, cases, n, account=True, first_only=False, split=None):
+    """split = (path parity, obligation group) or None: the heavy cases are spread over four processes, each
+    taking the explored paths of one parity (in exploration order) and every second obligation"""
     found = []
     for case in cases:
         closure, forcing, sign = case[:3]
-        grid_mode = case[3] if len(case) > 3 else None
+        grid_mode = case[3] if len(case) > 3 and case[3] in ("stretch", "domain_height", "both") else None
         fn = profile_case(pbl, closure, forcing, sign, n, grid_mode)
         npaths = 0
+        raw = -1
         for info, c in ex.explore(fn, cap=40):
+            raw += 1
+            if split is not None and raw % 2 != split[0]:
+                continue
             try:
                 ob, z0 = grid_obligations(c, pbl, info, closure, forcing, n)
             except TypeError:
                 continue
+            if split is not None and split[1] is not None:
+                ob = {k: v for j, (k, v) in enumerate(sorted(ob.items())) if j % 2 == split[1]}
             try:
                 if not c.feasible(z3.BoolVal(True), full=True, timeout=30000):
                     continue  # the physical-consistency assumptions empty this path
@@ -375,7 +393,8 @@ def profiles_part(run, pbl, cases, n, account=True, first_only=False):
                 continue
             if not account and r_ != "sat":
                 found.append(("undecided:reachability", dict(closure=closure), {}))
-            if account:
+                return found
+            if account and (split is None or not split[1]):
                 run.twins["total"] += 1
                 if r_ == "sat":
                     run.twins["sat"] += 1
@@ -392,7 +411,7 @@ def profiles_part(run, pbl, cases, n, account=True, first_only=False):
                 break  # a violation candidate for this case: no need to explore its remaining grid lengths
             if first_only and found:
                 return found
-        if npaths == 0:
+        if npaths == 0 and (split is None or (split[0] == 0 and not split[1])):
             if account:
                 run.errors.append("no feasible path for %s/%s/%s" % (closure, forcing, sign))
             else:
@@ -616,6 +635,11 @@ def cases_for(tier):
     for closure in ("MOST", "MOSTM", "CONSTANT"):
         for forcing in ("ustar", "z0"):
             for sign in (1, -1):
+                if tier == "quick" and closure == "MOSTM" and forcing == "ustar":
+                    # quick tier (must finish well inside 15 minutes): MOSTM shares the grid, z0 and wind statements with
+                    # MOST and differs in the Kx / Ky split only, which the z0-forced MOSTM cases decide; the ustar-forced
+                    # MOSTM cases (the two most expensive jobs) run in the thorough tier
+                    continue
                 cases.append((closure, forcing, sign))
     cases += [("OAAHOC", "ustar", 1), ("OAAHOC", "ustar", -1)]
     # the optional grid arguments, each alone and together (the grid code is shared by all closures)
@@ -626,14 +650,20 @@ def cases_for(tier):
 def worker(args):
     from ..core import Run
 
+    import time as _time
+
     kind, payload, n, cap, patch, account = args
     run = Run(PID)
     run.cex = []
     ex.XNP.ARANGE_CAP = cap
+    _t0 = _time.time()
     try:
         L, pbl, km = load(patch)
         if kind == "prof":
-            f = profiles_part(run, pbl, [payload], n, account=account, first_only=not account)
+            split = None
+            if payload and isinstance(payload[-1], tuple) and payload[-1] and payload[-1][0] == "split":
+                split, payload = (payload[-1][1], payload[-1][2]), tuple(payload[:-1])
+            f = profiles_part(run, pbl, [payload], n, account=account, first_only=not account, split=split)
         elif kind == "round":
             f = roundtrip_part(run, pbl, account=account, only=payload)
         else:
@@ -649,6 +679,8 @@ def worker(args):
             run.errors.append("exception: %s" % traceback.format_exc()[-1500:])
         else:
             run.cex.append(dict(obligation="raised"))
+    if account:
+        run.note("job %s %s n=%d: %.0f s" % (kind, payload, n, _time.time() - _t0))
     d = run.export()
     return d
 
@@ -656,8 +688,8 @@ def worker(args):
 def main(run):
     quick = run.tier == "quick"
     # MOST / MOSTM / OAAHOC carry 40-60 transcendental applications per path (thousands of law instances): they are
-    # decided for 2 layers / 4 nodes in both tiers; the thorough tier adds the CONSTANT closure and the grid jobs with
-    # 3 layers / up to 6 nodes (deeper bounds for the shared grid code)
+    # decided for 2 layers / 4 nodes; the thorough tier adds the ustar-forced MOSTM cases and the CONSTANT closure and
+    # grid jobs with 3-4 layers / up to 7 nodes (deeper bounds for the shared grid code)
     n = 2
     cap = n + 2
     run.explanation = (
@@ -682,7 +714,33 @@ def main(run):
     if not quick:
         deep = [cs for cs in cases_for(run.tier) if cs[0] == "CONSTANT"]
         jobs += [("prof", cs, 3, 6, None, True) for cs in deep] + [("prof", cs, 4, 7, None, True) for cs in deep if len(cs) > 3 or cs[1] == "z0"]
-    cex = run.pmap(worker, jobs)
+    # heavy cases (similarity closures driven by ustar: 40-60 transcendental applications per path) are spread over
+    # four processes each; real jobs and canaries (in-memory source mutants) share one pool of 16 processes
+    import concurrent.futures as cf
+    import multiprocessing as mp
+
+    split_jobs = []
+    for j in jobs:
+        kind, payload = j[0], j[1]
+        if kind == "prof" and payload[0] in ("MOST", "MOSTM") and payload[1] == "ustar" and len(payload) == 3 and j[2] == n:
+            split_jobs += [(kind, tuple(payload) + (("split", a, b),)) + tuple(j[2:]) for a in (0, 1) for b in ((0, 1) if not quick else (None,))]
+        else:
+            split_jobs.append(j)
+    jobs = split_jobs
+    cj = []
+    for name, patch, kind in CANARIES:
+        payload = ("MOST", "ustar", 1) if kind == "prof" else (("CONSTANT", "z0", 1, "stretch") if kind == "grid" else None)
+        cj.append((name, ("prof" if kind == "grid" else kind, payload, n, cap, patch, False)))
+        if name == "z0_without_stability_correction":
+            cj.append((name + "_roundtrip", ("round", None, n, cap, patch, False)))
+    cex = []
+    with cf.ProcessPoolExecutor(max_workers=min(12 if quick else 8, os.cpu_count() or 1), mp_context=mp.get_context("spawn")) as pool:
+        heavy_first = sorted(jobs, key=lambda j: 0 if (j[0] == "prof" and j[1][0] in ("MOST", "MOSTM")) or j[0] == "round" else 1)
+        futs = [pool.submit(worker, j) for j in heavy_first]
+        cfuts = [pool.submit(worker, a) for _, a in cj]
+        for f_ in futs:
+            cex += run.merge(f_.result())
+        cres = [f_.result() for f_ in cfuts]
     seen = set()
     for c_ in cex:
         if c_["obligation"] in seen:
@@ -694,18 +752,9 @@ def main(run):
                       undecided_within_budget=sorted(map(list, KNOWN_UNDECIDED)), closures=["MOST", "MOSTM", "CONSTANT", "OAAHOC"], forcing=["ustar", "z0"],
                       stability=["stable", "unstable"], reals="unbounded",
                       grid_arguments="stretch and domain_height: defaulted in every closure case; symbolic (each alone, both) for the grid clauses")
-    # canaries
-    cj = []
-    for name, patch, kind in CANARIES:
-        payload = ("MOST", "ustar", 1) if kind == "prof" else (("CONSTANT", "z0", 1, "stretch") if kind == "grid" else None)
-        cj.append((name, ("prof" if kind == "grid" else kind, payload, n, cap, patch, False)))
-        if name == "z0_without_stability_correction":
-            cj.append((name + "_roundtrip", ("round", None, n, cap, patch, False)))
-    import concurrent.futures as cf
-    import multiprocessing as mp
-
-    with cf.ProcessPoolExecutor(max_workers=len(cj), mp_context=mp.get_context("spawn")) as pool:
-        for (name, _), d in zip(cj, pool.map(worker, [a for _, a in cj])):
+    # canaries: collect
+    if True:
+        for (name, _), d in zip(cj, cres):
             obs = [c_["obligation"] for c_ in d["cex"]]
             if obs == ["n/a"]:
                 run.note("canary %s not applicable" % name)
